@@ -243,6 +243,9 @@ def install():
         elif v is real_os:
             setattr(EQ, n, _Os())
             _installed[n] = 'os'
+        elif any(v is f for f in (real_time.time_ns, real_time.monotonic_ns, real_time.perf_counter_ns)):
+            _installed[n] = 'time.' + v.__name__
+            setattr(EQ, n, lambda: int(W[0].clock * 1e9))
         elif any(v is f for f in (real_time.time, real_time.monotonic, real_time.perf_counter)):
             _installed[n] = 'time.' + v.__name__
             setattr(EQ, n, virtual_clock)
@@ -255,9 +258,9 @@ def install():
         elif v is real_mp.Queue or v is real_mp.Event or v is real_mp.Process:
             setattr(EQ, n, {'Queue': VQueue, 'Event': VEvent, 'Process': VProcess}[v.__name__])
             _installed[n] = 'multiprocessing.' + v.__name__
-    if not any(w.startswith('time') for w in _installed.values()) or not any(w.startswith('multiprocessing') for w in _installed.values()):
+    if not any(w.startswith('multiprocessing') for w in _installed.values()):   # (a module that reads no clock needs no clock seam)
         from mc.core import HarnessError
-        raise HarnessError('equalizer module: clock or multiprocessing seam not found (found %s): the seam scan must be extended' % sorted(_installed.values()))
+        raise HarnessError('equalizer module: multiprocessing seam not found (found %s): the seam scan must be extended' % sorted(_installed.values()))
     return _installed
 
 
@@ -265,6 +268,7 @@ def uninstall():
     import playback.studio.equalizer as EQ
     for n, what in _installed.items():
         setattr(EQ, n, {'multiprocessing': real_mp, 'os': real_os, 'time.time': real_time.time, 'time.monotonic': real_time.monotonic,
+                        'time.time_ns': real_time.time_ns, 'time.monotonic_ns': real_time.monotonic_ns, 'time.perf_counter_ns': real_time.perf_counter_ns,
                         'time.perf_counter': real_time.perf_counter, 'time': real_time, 'multiprocessing.Queue': real_mp.Queue,
                         'multiprocessing.Event': real_mp.Event, 'multiprocessing.Process': real_mp.Process}[what])
     _installed.clear()
